@@ -30,6 +30,11 @@ CHECKS = {
     technique='TLA+/TLC: batched trace validation of recorded callback invocations and results of the real LogicSim against CallbackT.tla (netlist semantics with one signal re-driven)',
     text='The real c_prop is run with a recording callback in all three logics, all option settings, with and without overwriting one random evaluated signal with random values. TLC validates each recording: exactly one invocation per evaluated signal identifying it, operands reported before the signals computed from them (any valid evaluation order is accepted), the view shows the freshly computed value, an untouched run equals the run without callback, and an overwrite equals the TLA+ evaluation of the netlist in which that signal is driven with the overwritten values (downstream reflects it, upstream does not).',
     note='Identity accepted as Line or index. Scratch-slot invocations (gates without output signal) are ignored. Branches of stripped forks are not evaluated signals. Trusted: TLC, JSON reader, harness projection.'),
+ 'C09': dict(
+    cat='model_checking', ref='DESIGN.md §4 C09, §3 (CircuitWF, CircuitEdit, CircuitEditTrace)',
+    technique='TLA+/TLC: state-fed trace validation of recorded edit histories of the real Circuit against CircuitWF.tla; exhaustive design run of the concrete editing model CircuitEdit.tla; its behaviours replayed into the real API',
+    text='After every public edit of every history TLC evaluates, on the full projection of the real object, that indices equal list positions, name maps resolve to the right node and contain every node once, every line is referenced from exactly the two pins it records, fork outputs are gap-free, ports are nodes of the circuit, statistics match the containers, and copy/pickle yield an equal object with identical projection. Histories: every distinct (canonical state, last edit) of the bounded TLC model (exhaustive to depth 4) replayed through the API, and seeded random histories of 40..400 edits with eliminate, substitute (7 implementation shapes), copy and pickle continuing on the clone. The concrete model (literal swap-with-last, squeeze, name maps) satisfies WF in all reachable states of its bounds and must conform step by step (DRIFT only).',
+    note='Well-formed use as stated in the evidence assumptions (explicit pins on free positions, single-driver forks, eliminate only on loop-free forks with drivers, substitute with matching port counts). Trusted: TLC, JSON reader, harness projection.'),
  'C07': dict(
     cat='model_checking', ref='DESIGN.md §4 C07, §3 (Schedule, ThreadOrder, SchedReplay)',
     technique='TLA+/TLC: model run of Schedule.tla on the published schedule (all Begin/End interleavings for narrow levels, level-wise static form for all); TLC-simulated thread orders (ThreadOrder.tla) replayed into the real simulators, judged by SchedReplay.tla',
